@@ -573,6 +573,153 @@ mut("C08", "commit_only_when_updates_sent", "visibility is committed only when a
 mut("C08", "public_visibility_fields", "visibility list is publicly writable", ["ClientVisibility.added/private"],
     ("src/server/client_visibility.rs", "pub struct ClientVisibility {\n    /// List of entities", "pub struct ClientVisibility {\n    /// List of entities") if False else ("src/server/client_visibility.rs", "    added: EntityHashSet,", "    pub added: EntityHashSet,"))
 
+# state machine (C08.R5)
+mut("C08", "reintroduce_d17_whitelist_readd_forgets_removal", "whitelist: re-showing an entity hidden in this tick marks it as new and forgets the removal", ["C08.R5/Whitelist/loss-reported"],
+    ("src/server/client_visibility.rs", """                    if self.removed.remove(&entity) {
+                        list.insert(entity, WhitelistInfo::Visible);
+                        return;
+                    }
+
+""", """                    self.removed.remove(&entity);
+"""))
+mut("C08", "reintroduce_d11_despawn_drops_lost_record", "remove_despawned drops the lost-visibility record of the despawned entity", ["C08.R5/Blacklist/despawn-reported"],
+    ("src/server/client_visibility.rs", """                if list.remove(&entity).is_some() {
+                    self.removed.remove(&entity);
+                }""", """                if list.remove(&entity).is_some() {
+                    self.removed.remove(&entity);
+                    self.added.remove(&entity);
+                }"""))
+mut("C08", "seeded_c08a_blacklist_rehide_keeps_queued_removal", "blacklist: re-hiding an entity queued for removal keeps it queued (un-hidden at the end of the tick)", ["C08.R5/Blacklist/"],
+    ("src/server/client_visibility.rs", """                    if list.insert(entity, BlacklistInfo::Hidden).is_some() {
+                        self.removed.remove(&entity);
+                        return;
+                    };
+
+                    self.added.insert(entity);""", """                    if list.insert(entity, BlacklistInfo::Hidden).is_none() {
+                        self.added.insert(entity);
+                    }"""))
+mut("C08", "blacklist_show_undo_keeps_entry", "blacklist: showing an entity hidden in this tick forgets the loss but keeps it in the list", ["C08.R5/Blacklist/"],
+    ("src/server/client_visibility.rs", """                    if self.added.remove(&entity) {
+                        entry.remove();
+                        return;
+                    }""", """                    if self.added.remove(&entity) {
+                        return;
+                    }"""))
+mut("C08", "whitelist_hide_undo_dropped", "whitelist: hiding an entity added in this tick reports a loss for an entity the client never had... and keeps it as added", ["C08.R5/Whitelist/"],
+    ("src/server/client_visibility.rs", """                    if self.added.remove(&entity) {
+                        return;
+                    }
+
+                    self.removed.insert(entity);""", """                    self.removed.insert(entity);"""))
+mut("C08", "update_keeps_whitelist_just_added", "end-of-tick commit no longer turns JustAdded into Visible (entities are re-sent in full every tick)... and clears nothing", ["C08.R5/Whitelist/"],
+    ("src/server/client_visibility.rs", """                for entity in self.added.drain() {
+                    list.insert(entity, WhitelistInfo::Visible);
+                }
+                self.removed.clear();""", """                self.added.clear();
+                self.removed.clear();"""))
+mut("C08", "update_blacklist_keeps_queued", "end-of-tick commit does not remove blacklist entries queued for removal", ["C08.R5/Blacklist/"],
+    ("src/server/client_visibility.rs", """                for entity in self.removed.drain() {
+                    list.remove(&entity);
+                }
+                self.added.clear();""", """                self.removed.clear();
+                self.added.clear();"""))
+mut("C08", "drain_lost_sets_swapped", "drain_lost drains the gained set instead of the lost set", ["C08.R5/"],
+    ("src/server/client_visibility.rs", """            VisibilityList::Blacklist(_) => self.added.drain(),
+            VisibilityList::Whitelist(_) => self.removed.drain(),""", """            VisibilityList::Blacklist(_) => self.removed.drain(),
+            VisibilityList::Whitelist(_) => self.added.drain(),"""))
+mut("C08", "lost_drained_before_despawns", "lost visibility is drained before despawned entities are processed (protocol order the exploration assumes)", ["C08.R5/collect_despawns/lost-drained-after-despawns"],
+    ("src/server.rs", """    for entity in despawn_buffer.drain(..) {
+        let entity_range = serialized.write_entity(entity)?;
+        for (client_entity, mut message, .., mut ticks, visibility) in &mut *clients {""", """    for (client_entity, mut message, .., mut ticks, visibility) in &mut *clients {
+        if let Some(mut visibility) = visibility {
+            for entity in visibility.drain_lost() {
+                trace!("writing visibility lost for `{entity}` for client `{client_entity}`");
+                let entity_range = serialized.write_entity(entity)?;
+                message.add_despawn(entity_range);
+                ticks.remove_entity(entity);
+            }
+        }
+    }
+
+    for entity in despawn_buffer.drain(..) {
+        let entity_range = serialized.write_entity(entity)?;
+        for (client_entity, mut message, .., mut ticks, visibility) in &mut *clients {"""),
+    ("src/server.rs", """    for (client_entity, mut message, .., mut ticks, visibility) in clients {
+        if let Some(mut visibility) = visibility {
+            for entity in visibility.drain_lost() {
+                trace!("writing visibility lost for `{entity}` for client `{client_entity}`");
+                let entity_range = serialized.write_entity(entity)?;
+                message.add_despawn(entity_range);
+                ticks.remove_entity(entity);
+            }
+        }
+    }
+
+    Ok(())""", """    Ok(())"""))
+mut("C08", "forget_only_visible_despawned", "remove_despawned is called only for entities visible to the client", ["C08.R5/collect_despawns/forget-unconditional", "C08.R5/collect_despawns/query-before-forget"],
+    ("src/server.rs", """                    message.add_despawn(entity_range.clone());
+                }
+                visibility.remove_despawned(entity);""", """                    message.add_despawn(entity_range.clone());
+                    visibility.remove_despawned(entity);
+                }"""))
+mut("C08", "changes_collected_before_despawns", "collect_changes runs before collect_despawns (state() read before the lost set is drained)", ["C08.R5/send_replication/collect_despawns-before-collect_changes"],
+    ("src/server.rs", """    collect_despawns(&mut serialized, &mut clients, &mut despawn_buffer)?;
+    collect_removals(&mut serialized, &mut clients, &removal_buffer)?;
+    collect_changes(""", """    collect_removals(&mut serialized, &mut clients, &removal_buffer)?;
+    collect_changes("""),
+    ("src/server.rs", """    removal_buffer.clear();
+
+    send_messages(""", """    removal_buffer.clear();
+    collect_despawns(&mut serialized, &mut clients, &mut despawn_buffer)?;
+
+    send_messages("""))
+
+# first-sight completeness (shared rule: C07.R6 / C03.R7 / C08.R6)
+mut("C07", "seeded_c07a_rate_limited_components_skipped", "rate-limited components are skipped before the per-client pass unless just added (late-authorized clients never get them)", ["C07.R6/collect_changes/every-component-reaches-clients"],
+    ("src/server.rs", """                let ctx = SerializeCtx {
+                    server_tick,
+                    component_id,
+                    type_registry,
+                };
+                let mut component_range = None;""", """                if !send_mutations
+                    && !marker_added
+                    && !ticks.is_added(change_tick.last_run(), change_tick.this_run())
+                {
+                    continue;
+                }
+
+                let ctx = SerializeCtx {
+                    server_tick,
+                    component_id,
+                    type_registry,
+                };
+                let mut component_range = None;"""))
+mut("C07", "insertion_respects_send_rate", "the insertion path is taken only when the send rate allows mutations on this tick", ["C07.R6/collect_changes/unknown-entity-gets-insertion"],
+    ("src/server.rs", """                    } else {
+                        if !updates.changed_entity_added() {
+                            let entity_range =
+                                write_entity_cached(&mut entity_range, serialized, entity.id())?;""", """                    } else if send_mutations || marker_added {
+                        if !updates.changed_entity_added() {
+                            let entity_range =
+                                write_entity_cached(&mut entity_range, serialized, entity.id())?;"""))
+mut("C07", "old_entities_skipped_on_odd_ticks", "entities that did not just start replicating are skipped on odd ticks", ["C07.R6/collect_changes/every-entity-reaches-components"],
+    ("src/server.rs", """            for &(component_rule, storage) in &replicated_archetype.components {
+                let (component_id, component_fns, rule_fns) = registry.get(component_rule.fns_id);""", """            if !marker_added && server_tick.get() % 2 == 1 {
+                continue;
+            }
+
+            for &(component_rule, storage) in &replicated_archetype.components {
+                let (component_id, component_fns, rule_fns) = registry.get(component_rule.fns_id);"""))
+mut("C03", "marker_added_does_not_force_insertion", "an entity that just started replicating gets only changed components if the client has a tick for it", ["C03.R7/collect_changes/forces-insertion/marker-added"],
+    ("src/server.rs", """                        .filter(|_| !marker_added)
+""", ""))
+mut("C03", "component_added_does_not_force_insertion", "a freshly inserted component is sent as a mutation", ["C03.R7/collect_changes/forces-insertion/component-added"],
+    ("src/server.rs", """                        .filter(|_| !ticks.is_added(change_tick.last_run(), change_tick.this_run()))
+""", ""))
+mut("C08", "gained_does_not_force_insertion", "an entity whose visibility was just gained gets only changed components if a tick is still recorded", ["C08.R6/collect_changes/forces-insertion/visibility-gained"],
+    ("src/server.rs", """                        .filter(|_| updates.entity_visibility() != Visibility::Gained)
+""", ""))
+
 # ------------------------------------------------------------------ C10
 mut("C10", "split_inside_chunk", "message boundary checked per entity inside a related group", ["boundary-between-chunks"],
     (MUTS, """            let mut mutations_size = 0;
@@ -1145,4 +1292,57 @@ benign("set_status_nested_ifs", "RepliconClient::set_status with nested ifs",
     ("src/shared/backend/replicon_client.rs", "        if self.is_connected() && !matches!(status, RepliconClientStatus::Connected) {", "        if self.is_connected() && status != RepliconClientStatus::Connected {"))
 benign("send_messages_local_bool", "send_messages computes the mutation gate into a local first",
     ("src/server.rs", "        if !mutations.is_empty() || track_mutate_messages {", "        let send_mutations = !mutations.is_empty() || track_mutate_messages;\n        if send_mutations {"))
+benign("vis_whitelist_show_match_on_get", "whitelist show branch looks the entry up with get() and matches on it instead of entry().or_insert()",
+    ("src/server/client_visibility.rs", """                    if *list.entry(entity).or_insert(WhitelistInfo::JustAdded)
+                        == WhitelistInfo::JustAdded
+                    {
+                        // Do not mark an entry as newly added if the entry was already in the list.
+                        self.added.insert(entity);
+                    }""", """                    match list.get(&entity) {
+                        None => {
+                            list.insert(entity, WhitelistInfo::JustAdded);
+                            self.added.insert(entity);
+                        }
+                        Some(WhitelistInfo::JustAdded) => {
+                            self.added.insert(entity);
+                        }
+                        Some(WhitelistInfo::Visible) => (),
+                    }"""))
+benign("vis_update_through_get_mut", "end-of-tick commit writes Visible through get_mut instead of insert",
+    ("src/server/client_visibility.rs", """                for entity in self.added.drain() {
+                    list.insert(entity, WhitelistInfo::Visible);
+                }""", """                for entity in self.added.drain() {
+                    if let Some(info) = list.get_mut(&entity) {
+                        *info = WhitelistInfo::Visible;
+                    }
+                }"""))
+benign("vis_blacklist_hide_match_on_insert", "blacklist hide branch matches on the result of insert",
+    ("src/server/client_visibility.rs", """                    if list.insert(entity, BlacklistInfo::Hidden).is_some() {
+                        self.removed.remove(&entity);
+                        return;
+                    };
+
+                    self.added.insert(entity);""", """                    match list.insert(entity, BlacklistInfo::Hidden) {
+                        Some(_) => {
+                            self.removed.remove(&entity);
+                        }
+                        None => {
+                            self.added.insert(entity);
+                        }
+                    }"""))
+benign("vis_is_visible_by_comparison", "is_visible compares the state with Hidden instead of matching",
+    ("src/server/client_visibility.rs", """        match self.state(entity) {
+            Visibility::Hidden => false,
+            Visibility::Gained | Visibility::Visible => true,
+        }""", """        self.state(entity) != Visibility::Hidden"""))
+benign("vis_whitelist_hide_contains_key", "whitelist hide branch tests contains_key before removing",
+    ("src/server/client_visibility.rs", """                    if list.remove(&entity).is_none() {
+                        return;
+                    }
+""", """                    if !list.contains_key(&entity) {
+                        return;
+                    }
+                    list.remove(&entity);
+"""))
+
 BENIGN = B
